@@ -55,9 +55,9 @@ macro "addpre_tac" f:ident : tactic =>
     amountSecondSign E sg (addPre p st) = ((amountSecondSign E sg st).1, addPre p (amountSecondSign E sg st).2) := by
   fun_cases amountSecondSign E sg st <;> addpre_tac amountSecondSign
 
-@[grind =] theorem amountRightCommodity_addPre (p) (c : Commodity) (st : PState σ) :
-    amountRightCommodity E c (addPre p st) = ((amountRightCommodity E c st).1, addPre p (amountRightCommodity E c st).2) := by
-  fun_cases amountRightCommodity E c st <;> addpre_tac amountRightCommodity
+@[grind =] theorem amountRightCommodity_addPre (p) (c : Commodity) (stop : Pos) (st : PState σ) :
+    amountRightCommodity E c stop (addPre p st) = ((amountRightCommodity E c stop st).1, addPre p (amountRightCommodity E c stop st).2) := by
+  fun_cases amountRightCommodity E c stop st <;> addpre_tac amountRightCommodity
 
 @[grind =] theorem amountNumber_addPre (p) (sp : Pos) (sg : Bytes) (c : Commodity) (sb : Bool) (st : PState σ) :
     amountNumber E sp sg c sb (addPre p st) = ((amountNumber E sp sg c sb st).1, addPre p (amountNumber E sp sg c sb st).2) := by
